@@ -79,9 +79,24 @@ func (p *Pool) Add(ctx context.Context) *Pool {
 	case <-p.Done():
 	case <-p.closed:
 	default:
-		p.pool = append(p.pool, ctx.Done())
+		if p.anyLive() {
+			p.pool = append(p.pool, ctx.Done())
+		}
 	}
 	return p
+}
+
+// anyLive reports whether at least one context in the pool is not done yet.
+// The caller must hold the lock.
+func (p *Pool) anyLive() bool {
+	for _, ch := range p.pool {
+		select {
+		case <-ch:
+		default:
+			return true
+		}
+	}
+	return false
 }
 
 // Cancel cancels the pool. Removes all contexts from the pool.
